@@ -21,6 +21,11 @@ Section Dict.
   Definition read_fields (sc : schema) (d : dict) : res (list (option A)) :=
     if keys_ok sc d then Ok (map (fun syn => field syn d) sc) else Err.
 
+  (* what a writer does: every present field under the primary key of its synonym list *)
+  Definition entry_of (sv : list str * option A) : dict :=
+    match fst sv, snd sv with p :: _, Some a => [(p, a)] | _, _ => [] end.
+  Definition write_fields (sc : schema) (vals : list (option A)) : dict := flat_map entry_of (combine sc vals).
+
   Definition rename (k k' : str) (d : dict) : dict := map (fun kv : str * A => if str_eqb (fst kv) k then (k', snd kv) else kv) d.
 End Dict.
 
